@@ -83,6 +83,11 @@ def check_export(gd, res, layers, dist, completed_expected):
         dense2 = res.adjacency_matrix()
         if {(int(a), int(b)) for a, b in zip(*np.nonzero(dense2))} != set(el):
             return "adjacency matrix changed after other exports were requested"
+        # the matrix handed out belongs to the caller: symmetrising it or clearing its diagonal in place must not change what the result exports next
+        dense2[:] = 0
+        dense3 = res.adjacency_matrix()
+        if {(int(a), int(b)) for a, b in zip(*np.nonzero(dense3))} != set(el):
+            return "adjacency_matrix() returns a different matrix after the caller edited the matrix it got from an earlier call"
     return None
 
 
